@@ -148,6 +148,9 @@ pub fn drive<F: FnMut(&Sexp) -> Sexp>(mut f: F) {
                 }
             }
         }
+        // one line per case, flushed at once: the driver detects a hanging case by the absence
+        // of progress and knows exactly which case it is
+        out.flush().unwrap();
     }
     out.flush().unwrap();
 }
